@@ -164,6 +164,11 @@ func (r *Run) Inconclusive(what string) {
 }
 
 func (r *Run) loadKnown() {
+	if os.Getenv("VERIF_IGNORE_KNOWN") != "" {
+		// investigation aid (never set by a registered command): listed
+		// findings are reported like any other violation, with their replay
+		return
+	}
 	f, err := os.Open(filepath.Join(Root(), "KNOWN_FINDINGS.txt"))
 	if err != nil {
 		return
